@@ -52,7 +52,7 @@ func GenShapes(shapes []Shape, id, pkgRel string) *Scenario {
 	for _, c := range id {
 		h = h*31 + int(c)
 	}
-	b.PkgNameMode = []string{"", "differs", "alias-collide", ""}[h%4]
+	b.PkgNameMode = []string{"", "differs", "alias-collide", "dot", ""}[h%5]
 	var methods []*Method
 	var argIface []*Method // arg-style shapes whose style comes from an interface-level notation
 	for i, sh := range shapes {
@@ -66,6 +66,10 @@ func GenShapes(shapes []Shape, id, pkgRel string) *Scenario {
 		src := b.Struct(sp, fmt.Sprintf("S%d", i), "X int", "Y string")
 		dst := b.Struct(dp, fmt.Sprintf("D%d", i), "X int", "Y string")
 		m := &Method{Name: fmt.Sprintf("M%d", i), HasErr: sh.Err}
+		if sh.Recv && i%3 == 0 {
+			// a generated method may be named like a package-level declaration (its own result type)
+			m.Name = fmt.Sprintf("D%d", i)
+		}
 		styleAtIface := sh.Arg && i%2 == 1
 		if sh.Arg && !styleAtIface {
 			m.Notations = append(m.Notations, N("style", "arg"))
